@@ -234,6 +234,14 @@ func buildC04(tier string) *core.Plan {
 				map[string]any{"a": map[string]any{"k": n}, "b": map[string]any{"k": n}, "c": map[string]any{"k": m}, "e": map[string]any{"k": m}, "f": []any{map[string]any{"k": m}, map[string]any{"k": m}}}},
 			tmpl{"yaml-alias-of-scalar-and-list", "yaml", fmt.Sprintf("s: &s %s\nl: &l [%s, *s]\nm: {x: *s, y: *l}\n", ns, ms),
 				map[string]any{"s": n, "l": []any{m, n}, "m": map[string]any{"x": n, "y": []any{m, n}}}},
+			tmpl{"yaml-bool-null-spellings", "yaml", fmt.Sprintf("t: [true, True, TRUE]\nf: [false, False, FALSE]\nn: [null, Null, NULL, ~]\nk: %s\n", ns),
+				map[string]any{"t": []any{true, true, true}, "f": []any{false, false, false}, "n": []any{nil, nil, nil, nil}, "k": n}},
+			tmpl{"jsonl-extension", "jsonl", fmt.Sprintf("{\"a\": %s, \"l\": [%s, 9007199254740993]}\n", ns, ms),
+				map[string]any{"a": n, "l": []any{m, 9007199254740993}}},
+			tmpl{"json-pretty-extension", "json-pretty", fmt.Sprintf("{\n  \"a\": %s,\n  \"l\": [\n    %s\n  ]\n}\n", ns, ms),
+				map[string]any{"a": n, "l": []any{m}}},
+			tmpl{"yml-extension", "yml", fmt.Sprintf("a: %s\nl:\n  - %s\n  - 9007199254740993\n", ns, ms),
+				map[string]any{"a": n, "l": []any{m, 9007199254740993}}},
 			tmpl{"toml-dotted", "toml", fmt.Sprintf("a.b.c = %s\na.b.d = %s\na.e = \"x\"\n", ns, ms),
 				map[string]any{"a": map[string]any{"b": map[string]any{"c": n, "d": m}, "e": "x"}}},
 			tmpl{"toml-tables", "toml", fmt.Sprintf("top = %s\n[a]\nx = %s\n[a.b]\ny = 1\n[[l]]\nk = %s\n[[l]]\nk = %s\n", ns, ms, ns, ms),
